@@ -46,7 +46,12 @@ package registry
 //@   note (C08) the registry state handed in by the caller is bound to the tree OUTSIDE this handler's transaction context, so what is written through it survives a failing transaction: the runtime descriptor and the owner index are written only after the last check that can reject the registration - after the other applications were notified (MessageRuntimeUpdated published) without an error
 //@   note when the registration is announced to the other applications (first message published), the runtime's stake claim is recorded on the account that now owns the runtime and, if the owning account changed, no longer on the previous one: the recorded claims are exactly those implied by the registered runtimes
 
+//@ ghost var GNodeClaimAdd int
+
 //@ func Application.registerNode
+//@   precall registry/state\.MutableState\)\.SetNode$ :: stakeAcc == nil || (GNodeClaimAdd > old(GNodeClaimAdd) && GAccCommit > old(GAccCommit))
+//@   precall staking/state\.NewStakeAccumulatorCache$ :: defined(stakeParams) && stakeParams != nil && !stakeParams.DebugBypassStake
+//@   note (C17) EVERY node descriptor that is stored - a new registration, a renewal, a re-registration with other roles or other runtimes - (unless the stake checks are bypassed by the consensus parameters: no accumulator is created then) was preceded by a successful (re-)recording of the node's stake claim with the thresholds of THAT descriptor, committed to the state: the claim's thresholds depend on the roles and on the runtimes the node serves, so a descriptor stored without refreshing the claim leaves the recorded claims behind what the registered nodes imply (seed C17_j refreshed the claim only for new or expired nodes and changed role masks: an active node that added a runtime kept the smaller claim)
 //@   assume-pre api\.Context\.TxSigner$
 //@   props C08 C17
 //@   requires app != nil && ctx != nil && state != nil
